@@ -299,7 +299,8 @@ pub fn c16(tier: &str, seed: u64, meta: &str) -> Report {
             let home = std::path::PathBuf::from("/nonexistent");
             let mut o = if phonetic { Opts::phonetic(&home) } else { Opts::fixed(PROBHAT, &home) };
             o.ansi = ansi; o.english = english; o.ansi_first = ansi_first; o.smart_quote = smart;
-            if !phonetic { o.fixed_suggestion = true; o.kar = rng_bit(i, 3); }
+            // a quarter of the fixed-layout contexts run with the candidate list off (single-string suggestions)
+            if !phonetic { o.fixed_suggestion = (i / 2) % 4 != 3; o.kar = rng_bit(i, 3); }
             Session::new(w, o, None, None, "c16").ok()
         };
         let self_mapped: Vec<String> = fpr.p.ac_keys.iter().filter(|k| w.oracle.ac(k).map(|v| v == *k).unwrap_or(false)).cloned().collect();
@@ -327,6 +328,9 @@ pub fn c16(tier: &str, seed: u64, meta: &str) -> Report {
                 // now and then a letter from the AltGr plane of the layout (rare letters no dictionary word holds)
                 // ... or a joiner as the last character of the text (it is part of the text, also of the pre-edit text)
                 if rng.chance(1, 6) { if let Some(j) = fpr.keys_for(if rng.chance(1, 2) { "\u{200D}" } else { "\u{200C}" }) { k.extend(j); } }
+                // ... or a key the layout has no entry for (keypad Enter / keypad "="), pressed inside the word: the composition
+                // stays as it is and is read out again
+                if rng.chance(1, 4) && !k.is_empty() { let at = 1 + rng.below(k.len()); k.insert(at, SEv::Key([0x0E1Cu16, 0x0E0D][rng.below(2)], 0, 0)); }
                 if rng.chance(1, 5) { let alt: Vec<&(u16, u8, String)> = fpr.km.keys.iter().filter(|x| x.1 != 0).collect(); if !alt.is_empty() { let x = rng.pick(&alt); let at = rng.below(k.len() + 1); k.insert(at, SEv::Key(x.0, x.1, 0)); } }
                 k
             };
